@@ -140,9 +140,9 @@ def grid_cases():
     yield "clip:int-mixed-bounds", {"tables": [tb], "steps": [S0, {"out": "v1", "verb": "mutate", "in": "v0", "items": items}],
                                     "result": "v1"}, len(items) * len(GRID["int"])
     for f in NUM:
-        vals = GRID[f] + ([1.234, -1.236, 12.5, 0.125] if f == "float" else [15, -15, 149])
+        vals = GRID[f] + ([1.234, -1.236, 12.5, 0.125] if f == "float" else [15, -15, 149, 1351, -1251, 26])
         tb = _table([f], [(v,) for v in vals])
-        items = [[f"rd{d}".replace("-", "m"), ["fn", "round", [["col", {"c": "c0"}], ["lit", d]], {}]] for d in ((0, 1, 2) if f == "float" else (0, 1))]
+        items = [[f"rd{d}".replace("-", "m"), ["fn", "round", [["col", {"c": "c0"}], ["lit", d]], {}]] for d in ((0, 1, 2, -1) if f == "float" else (0, 1, -1, -2))]
         yield f"round:{f}", {"tables": [tb], "steps": [S0, {"out": "v1", "verb": "mutate", "in": "v0", "items": items}], "result": "v1"}, len(items) * len(vals)
     # case / map
     for f in ("int", "str"):
